@@ -1,12 +1,12 @@
 package main
 
 import (
-	"strconv"
 	"fmt"
 	"go/ast"
 	"go/token"
 	"go/types"
 	"sort"
+	"strconv"
 	"strings"
 )
 
@@ -27,6 +27,16 @@ func init() {
 			{ID: "C05.R9", Floor: 3, Doc: "pointer locals that start nil are assigned or nil-checked on every path before a field is read through them (response handling in the root package)", Run: c05r9},
 			{ID: "C05.R8", Floor: 20, Doc: "goroutine roots census: go statements whose callee parses network data run under recover or reach only rule-checked code", Run: c05r8},
 			{ID: "C05.R10", Floor: 1, Doc: "the header pointer readFrame installs on success is dereferenced only where readFrame is known to have succeeded", Run: c05r10},
+			{ID: "C05.R11", Floor: 50, Doc: "no error of a call is overwritten before it is examined (in every function of the module)", Run: func(p *Program, r *Report) {
+				if lostErrors(p, r, func(fi *FuncInfo) bool { return fi.Pkg == p.Root || strings.Contains(fi.Pkg.PkgPath, "/internal/") }, "lost error") == 0 {
+					r.Unresolved("no error assignment found")
+				}
+			}},
+			{ID: "C05.R12", Floor: 1, Doc: "no `if err := ..` whose body falls through hides the call's error from code that reads an outer err afterwards", Run: func(p *Program, r *Report) {
+				if shadowedErrors(p, r, func(fi *FuncInfo) bool { return fi.Pkg == p.Root || strings.Contains(fi.Pkg.PkgPath, "/internal/") }, "shadowed error") == 0 {
+					r.OK(nil, "no if-init shadows an outer error variable", "0 candidates")
+				}
+			}},
 		},
 		Variants: []Variant{{Name: "linux/386", GOARCH: "386"}},
 	})
